@@ -45,9 +45,30 @@ def table_cov():
     return "\n".join(rows)
 
 
+def table_mut():
+    path = os.path.join(V, "selftest", "mutsweep.json")
+    if not os.path.exists(path):
+        return "(not run)"
+    rows = json.load(open(path))
+    out = ["| file | mutants | do not compile | killed by the reduced workload | killed by the quick tier only | survived |", "|---|---|---|---|---|---|"]
+    for f in sorted(set(r["file"] for r in rows)):
+        rs = [r for r in rows if r["file"] == f]
+        c = lambda v: sum(1 for r in rs if r["verdict"] == v)
+        out.append("| `%s` | %d | %d | %d | %d | %d |" % (f, len(rs), c("does not compile"), c("killed (reduced workload)"), c("killed (quick tier)"), c("SURVIVED")))
+    out.append("")
+    out.append("Survivors, each reviewed by hand:")
+    out.append("")
+    out.append("| file:line | edit | review |")
+    out.append("|---|---|---|")
+    for r in rows:
+        if r["verdict"] == "SURVIVED":
+            out.append("| `%s`:%d | `%s` -> `%s` | %s |" % (os.path.basename(r["file"]), r["line"], r["from"][:70].replace("|", "/"), r["to"][:70].replace("|", "/"), r.get("review", "NOT REVIEWED")))
+    return "\n".join(out)
+
+
 p = os.path.join(V, "DESIGN.md")
 s = open(p).read()
-for name, fn in (("COVERAGE", table_cov), ("SENSITIVITY", table_sens), ("DETERMINISM", table_det), ("SEEDED", table_seeded), ("HARMLESS", table_harmless)):
+for name, fn in (("MUTSWEEP", table_mut), ("COVERAGE", table_cov), ("SENSITIVITY", table_sens), ("DETERMINISM", table_det), ("SEEDED", table_seeded), ("HARMLESS", table_harmless)):
     b, e = "<!-- BEGIN:%s -->" % name, "<!-- END:%s -->" % name
     if b in s and e in s:
         s = s[:s.index(b) + len(b)] + "\n" + fn() + "\n" + s[s.index(e):]
